@@ -51,7 +51,8 @@ def gen_data(rng, nF=None, nneg=None):
     elif style == 1:   # x_F is the unconstrained minimiser: residual decreases towards alpha = 1 before projection
         Atb = [sum(AtA[i][j] * xF[j] for j in range(nF)) for i in range(nF)]
     else:              # minimiser near the current solution: large steps are bad, selection happens late
-        Atb = [sum(AtA[i][j] * (x[F[j]] + 0.05 * (xF[j] - x[F[j]])) for j in range(nF)) for i in range(nF)]
+        tau = 0.02 + 0.5 * rng.unit()   # unconstrained minimum along the line at alpha = tau: steps > 2 tau do not reduce the residual
+        Atb = [sum(AtA[i][j] * (x[F[j]] + tau * (xF[j] - x[F[j]])) for j in range(nF)) for i in range(nF)]
     return {"nF": nF, "n": n, "F": F, "x": [H(v) for v in x], "xF": [H(v) for v in xF],
             "AtA": [H(AtA[i][j]) for j in range(nF) for i in range(nF)], "Atb": [H(v) for v in Atb]}
 
@@ -247,7 +248,7 @@ def check_free(exe, datas, threads, reps, out, cov, tag="free", timeout_each=20.
 
 def run_end_to_end(exe, mode, lines, timeout):
     try:
-        p = subprocess.run([exe, mode], input="\n".join(lines) + "\n", stdout=subprocess.PIPE, stderr=subprocess.PIPE, timeout=timeout)
+        p = subprocess.run([exe, mode], input=("\n".join(lines) + "\n").encode(), stdout=subprocess.PIPE, stderr=subprocess.PIPE, timeout=timeout)
         return p.stdout.decode(errors="replace"), p.stderr.decode(errors="replace"), False
     except subprocess.TimeoutExpired as e:
         return (e.stdout or b"").decode(errors="replace"), (e.stderr or b"").decode(errors="replace"), True
